@@ -73,7 +73,7 @@ def sparql_part(rep, wd, tier, seed):
     queries = [e for e in ev if e["a"] == "query"]
     feats = collections.Counter()
     for e in queries:
-        for f in ("DISTINCT", "OPTIONAL", "UNION", "FILTER", "LIMIT", "COUNT", "ORDER BY", "OFFSET", "GROUP BY", "MINUS", "VALUES", " IN (", "||", "&&"):
+        for f in ("DISTINCT", "OPTIONAL", "UNION", "FILTER", "LIMIT", "COUNT", "ORDER BY", "OFFSET", "GROUP BY", "HAVING", "MINUS", "VALUES", " IN (", "||", "&&"):
             if f in e["text"]:
                 feats[f] += 1
     clsc = collections.Counter("+".join(sorted(sparql_classes.classes(e["q"]["where"]))) or "plain" for e in queries)
